@@ -298,6 +298,14 @@ pub proof fn lemma_c05_last_piece_monotone(k0: Knot, k1: Knot, k2: Knot, f1: f64
     lemma_c05_slope_ratios(sec(k1, k2), sec(k0, k1));
     lemma_c05_segment_monotone(f1, k1, f2, k2, r, t);
 }
+
+/// C04 corollary: two neighbouring pieces built by `segment` with the same slope at the shared knot agree there in value and in slope (C1)
+pub proof fn lemma_c04_c1_at_shared_knot(f0: f64, k0: Knot, f1: f64, k1: Knot, f2: f64, k2: Knot, a: Segment<Poly3>, b: Segment<Poly3>)
+    requires seg_post(f0, k0, f1, k1, a), seg_post(f1, k1, f2, k2, b),
+    ensures cubic(a.poly.0@, rv(k1.x)) == cubic(b.poly.0@, rv(k1.x)), dcubic(a.poly.0@, rv(k1.x)) == dcubic(b.poly.0@, rv(k1.x)),
+            cubic(a.poly.0@, rv(k1.x)) == rv(k1.y), a.end == k1.x,
+{
+}
 }
 
 } // verus!
